@@ -224,6 +224,11 @@ class FitYamlReader(YamlReaderMixin, FitDReprBase):
         _fit_kwargs = dict(minimizer=_minimizer, minimizer_kwargs=_minimizer_kwargs)
         if _cost_function is not None:
             _fit_kwargs["cost_function"] = _cost_function
+        if _class is HistFit and _read_parametric_model is not None:
+            # a histogram fit builds a new parametric model whenever its data are replaced: it has to be constructed with the
+            # bin evaluation method and the density flag of the model that was read (not with the defaults)
+            _fit_kwargs["bin_evaluation"] = _read_parametric_model.bin_evaluation
+            _fit_kwargs["density"] = _read_parametric_model.density
         if _fit_type != "custom":
             _fit_object = _class(_data, _read_model_function, **_fit_kwargs)
         else:
